@@ -41,9 +41,10 @@ Init == /\ sn = [i \in Ids |-> "none"] /\ sr = [i \in Ids |-> "absent"]
         /\ ctl = [steps |-> 0, ndisc |-> 0, bad |-> FALSE]
         /\ hist = <<>>
 
-Can == ctl.steps < MaxSteps
+Can == MaxSteps = 0 \/ ctl.steps < MaxSteps
 Rec(s) == hist' = IF Export THEN hist \o s ELSE hist
-Tick == ctl' = [ctl EXCEPT !.steps = @ + 1]
+\* MaxSteps = 0 means unbounded (liveness configurations): the step counter then stands still so that the state space stays finite
+Tick == ctl' = IF MaxSteps = 0 THEN ctl ELSE [ctl EXCEPT !.steps = @ + 1]
 
 (***************************************************************************)
 (* NetcodeClientTransport::update + send_packets (client.rs:84-165)        *)
@@ -56,6 +57,9 @@ ClientRecv(state, d) ==
         b == IF "denied" \in d /\ a \in {"req", "resp"} THEN "disc" ELSE a
         c == IF "ka" \in d /\ b = "resp" THEN "conn" ELSE b
     IN IF "disconnect" \in d /\ c = "conn" THEN "disc" ELSE c
+
+\* TimeoutSteps = 0 switches the time-outs off (used to show that the liveness property needs them); the counters saturate
+Cap(x) == IF x > TimeoutSteps THEN TimeoutSteps ELSE x
 
 \* does one of the datagrams refresh last_packet_received_time of a client in this state (client.rs:208-243) ?
 ClientFresh(state, d) == \/ ("chal" \in d /\ state = "req")
@@ -76,8 +80,8 @@ ClientStep(i, mode) ==
        ELSE LET status == IF cn[i] = "conn" THEN "connected" ELSE "connecting"
                 st0 == ClientRecv(cn[i], arrived)
                 \* packets are processed at the old clock, then netcode_client.update(duration) advances it and checks the time-out
-                age == IF ClientFresh(cn[i], arrived) THEN 1 ELSE cq[i] + 1
-                timedOut == st0 # "disc" /\ age >= TimeoutSteps
+                age == IF TimeoutSteps = 0 THEN 0 ELSE IF ClientFresh(cn[i], arrived) THEN 1 ELSE Cap(cq[i] + 1)
+                timedOut == TimeoutSteps > 0 /\ st0 # "disc" /\ age >= TimeoutSteps
                 st1 == IF timedOut THEN "disc" ELSE st0
                 out == CASE st1 = "req" -> {"req"} [] st1 = "resp" -> {"resp"} [] st1 = "conn" -> {"ka", "payload"} [] OTHER -> {}
             IN /\ cr' = [cr EXCEPT ![i] = status]
@@ -108,8 +112,8 @@ ServerOne(i, arrived, s) ==
                \o (IF peerLeft /\ (connected \/ s.sr[i] # "absent") THEN <<[type |-> "Disconnected", id |-> i]>> ELSE <<>>)
         \* update_client: the clock was advanced before the datagrams were processed, so a client heard in this update has age 0;
         \* a connected client that stayed silent for TimeoutSteps updates is told to go and removed from both layers
-        age == IF connected \/ (s.sn[i] = "conn" /\ arrived \cap {"ka", "payload"} # {}) THEN 0 ELSE s.sq[i] + 1
-        timedOut == n1 = "conn" /\ age >= TimeoutSteps
+        age == IF TimeoutSteps = 0 \/ connected \/ (s.sn[i] = "conn" /\ arrived \cap {"ka", "payload"} # {}) THEN 0 ELSE Cap(s.sq[i] + 1)
+        timedOut == TimeoutSteps > 0 /\ n1 = "conn" /\ age >= TimeoutSteps
         n1t == IF timedOut THEN "none" ELSE n1
         r1t == IF timedOut THEN "absent" ELSE r1
         ev1t == IF timedOut /\ r1 # "absent" THEN <<[type |-> "Disconnected", id |-> i]>> ELSE <<>>
@@ -163,7 +167,7 @@ Disc(i, who) ==
          [] who = "client_transport" -> /\ cn[i] # "disc" /\ cn' = [cn EXCEPT ![i] = "disc"]
                                         /\ up' = [up EXCEPT ![i] = @ \cup {"disconnect"}] /\ UNCHANGED <<sr, cr>>
     /\ asked' = asked \cup {i}
-    /\ ctl' = [ctl EXCEPT !.steps = @ + 1, !.ndisc = @ + 1]
+    /\ ctl' = [ctl EXCEPT !.steps = IF MaxSteps = 0 THEN @ ELSE @ + 1, !.ndisc = @ + 1]
     /\ Rec(<<[a |-> "disc", c |-> i, who |-> who]>>)
     /\ UNCHANGED <<sn, down, evq, seen, cq, sq, tout>>
 
@@ -185,6 +189,21 @@ EventsOnce == ~ctl.bad
 OnlyAsked == \A i \in Ids : (i \notin asked \cup tout) => (cn[i] # "disc" /\ cr[i] # "disc" /\ sr[i] # "disc")
 \* a time-out fires only after TimeoutSteps silent updates, and a connected session whose datagrams all pass is never timed out
 NoEarlyTimeout == \A i \in Ids : cq[i] <= TimeoutSteps /\ sq[i] <= TimeoutSteps
+
+(***************************************************************************)
+(* Liveness (C20: "a disconnect decided by either layer or either side     *)
+(* ends the session on both sides"), checked by TLC under weak fairness of *)
+(* the steps of every endpoint, whatever the relay does -- it may drop     *)
+(* every datagram for ever: the time-outs then end the other half.         *)
+(***************************************************************************)
+Fairness == /\ \A i \in Ids : WF_vars(\E mode \in {"pass", "drop"} : ClientStep(i, mode))
+            /\ WF_vars(\E mode \in [Ids -> {"pass", "drop"}] : ServerStep(mode))
+            /\ WF_vars(ReadEvent)
+LiveSpec == Init /\ [][Next]_vars /\ Fairness
+Ended(i) == sn[i] # "conn" /\ sr[i] = "absent" /\ cn[i] = "disc" /\ cr[i] = "disc"
+EndsOnBothSides == \A i \in Ids : (i \in asked \cup tout) ~> Ended(i)
+\* and the application hears about every session it was told about: a Connected event is eventually followed by its Disconnected
+EventsComplete == \A i \in Ids : (i \in asked \cup tout) ~> (evq = <<>> /\ ~seen[i])
 
 Done == ctl.steps = MaxSteps
 ExportInv == (Export /\ Done /\ RandomElement(1..ExportOneIn) = 1) => PrintT(<<"PATH", ToJson([done |-> TRUE, steps |-> hist])>>)
